@@ -5,6 +5,7 @@ U2 = "u2_sysdata"
 U3 = "u3_world"
 U4 = "u4_meta"
 U5 = "u5_parseq"
+U6 = "u6_async"
 DBG = ("parallel", "shred-derive", "debug_assertions")
 STAR_OWNERS = ("C04",)   # the shared shape / safety clauses (`*`) belong to these; for other properties a failing `*` clause is "undecided"
 
@@ -21,6 +22,9 @@ PROPS = {
     "C09": dict(runs=[dict(unit=U3, groups=["typed"], mode="P"), dict(unit=U3, groups=["typed"], mode="T")], own_groups=["typed", "P", "T"], owns_shared=True,
                 undecided_sentences=["'every value is dropped exactly once': ownership / drop glue (trusted)", "entry / or_insert(_with) / get_mut(_raw): std hash_map::Entry and HashMap::get_mut have no vstd model (not under contract)",
                                      "'leaves the world unchanged' on a mismatching call is decided as 'the call does not return' plus the guard being the first statement of every id-taking function (mode P cannot observe state at a panic)"]),
+    "C15": dict(runs=[dict(unit=U6, groups=["hand"], mode="T")], own_groups=["hand", "T"], owns_shared=True,
+                undecided_sentences=["anything about real time: 'while one is running, running() reports true' is decided as running() == (the state has not been taken back); that holding the state (Inner) is incompatible with the job still using it is Rust ownership; std::sync::mpsc and rayon::spawn are trusted (the job's closure is called exactly once; a channel is used once)",
+                                     "AsyncDispatcher::setup and the deprecated res / mut_res are not under contract"]),
     "C16": dict(runs=[dict(unit=U5, groups=["tree"], mode="P", features=DBG), dict(unit=U5, groups=["tree"], mode="T", features=DBG), dict(unit=U5, groups=["tree"], mode="T")],
                 own_groups=["tree", "P", "T"], owns_shared=True,
                 undecided_sentences=["'every leaf of an earlier child finishes before any leaf of a later child starts' in time: Seq::run is two consecutive calls (program order of the verifier's sequential semantics); 'children of a par node may overlap': rayon (rule R11 treats join as calling both closures once)",
